@@ -226,6 +226,31 @@ def run(chk, repo, tier):
                     det_e = f'undecided: exponent not understood element-wise ({ex})'
                 chk.ob('C19-e', 'N-const', key, 'Gaussian MTF exp(-2*pi^2*sigma^2*rho^2), rho^2 = xx^2 + yy^2', ok,
                        det_e or f'argument {fmt(arg)[:220]}', f.loc(p.node))
+            if key == 'convolvable.smear':
+                # the directional sinc: at frequency (f_row, f_col) its argument is (cos(angle)*f_col + sin(angle)*f_row) times
+                # the extent in samples - the angle is measured from the column (x) axis towards the row axis
+                tfa = tfs[0]
+                arg = tfa[2][0]
+                from ..elem import ElemEval, Unsupported
+                i_, j_ = S('@i'), S('@j')
+                okd, det_d = None, ''
+                try:
+                    el = ElemEval(Shapes(decl)).at(arg, (i_, j_))
+                    fr = nf.app('fftfreq_at', ish[0], i_)
+                    fc = nf.app('fftfreq_at', ish[1], j_)
+                    angs = [a for a in nf.value_atoms(arg) if is_app(a, ('cos', 'sin'))]
+                    ang = angs[0][2][0] if angs else None
+                    if ang is not None and all(a[2][0] == ang for a in angs):
+                        scale_ = S('distance') / S('pixelscale') * S('oversample')
+                        want = (nf.app('cos', ang) * fc + nf.app('sin', ang) * fr) * scale_
+                        swapped = (nf.app('cos', ang) * fr + nf.app('sin', ang) * fc) * scale_
+                        okd = True if (tfa[1] == 'sinc' and el == want) else (False if el == swapped else None)
+                        det_d = f'argument[i, j] = {fmt(el)[:200]}' + ('' if okd is not False else
+                                                                     ': cos(angle) multiplies the row frequency - the angle is measured from the wrong axis')
+                except Unsupported as ex:
+                    det_d = f'undecided: argument not understood element-wise ({ex})'
+                chk.ob('C19-e', 'U-axis', key, f'smear direction: cos(angle) along the columns, sin(angle) along the rows [{tag[:40]}]', okd,
+                       det_d or f'argument {fmt(arg)[:200]}', f.loc(p.node))
             if ext:
                 # identity at zero extent must be *reached*: nothing is divided by a quantity that vanishes with the extent
                 bad_div = []
